@@ -1241,6 +1241,7 @@ class FakeTaskRow(object):
         self.state_info = None
         self.unique_key = d.get('unique_key')
         self.runtime_context = {}
+        self.executions = []
         self.workflow_execution_id = 'wf'
         self.workflow_execution = FakeWfEx([])
         self._tx = tx
@@ -1315,9 +1316,10 @@ def defer_harness():
     return tasks_mod, fake, body, KEY
 
 
-def probe_defer(existing_state, cyclic, known_trigger=False):
+def probe_defer(existing_state, cyclic, known_trigger=False, started=True):
     """What the REAL Task.defer does when the join execution already exists in `existing_state` (None = absent) and
-    a task routes to it: 'create' | 'keep' | 'rearm' (put back to WAITING).  Sequential, no race."""
+    a task routes to it: 'create' | 'keep' | 'rearm' (put back to WAITING).  `started`: the execution has action
+    executions (it ran) or none (it completed by its logical state only).  Sequential, no race."""
     from unittest import mock
     from mistral.db.v2 import api as db_api  # noqa
     from mistral.engine import tasks as tasks_mod
@@ -1343,6 +1345,8 @@ def probe_defer(existing_state, cyclic, known_trigger=False):
     if existing_state is not None:
         row = FakeTaskRow('row1', {'state': existing_state, 'unique_key': KEY, 'name': 'j'}, None)
         row.runtime_context = {'triggered_by': [{'task_id': 'ta', 'event': 'on-success'}]}
+        row.executions = [object()] if started else []
+        row.action_executions = row.executions
 
     class FakeDb(object):
         def get_task_executions(self, **kw):
@@ -1378,23 +1382,28 @@ def suite_defer_decision(ctx):
     """on_trigger of Model/JoinLife.v (with the re-arm flags of Gen/Locks.v) vs the real Task.defer."""
     abstract = {None: 'JAbsent', 'WAITING': 'JWaiting', 'RUNNING': 'JRunning', 'DELAYED': 'JRunning', 'PAUSED': 'JRunning',
                 'IDLE': 'JRunning', 'SUCCESS': 'JDone', 'ERROR': 'JDone', 'CANCELLED': 'JDone', 'SKIPPED': 'JDone'}
+    code = {'JAbsent': 0, 'JWaiting': 1, 'JRunning': 2, 'JDone': 3, 'JFailed': 4}
     exprs, obs, cases = [], [], []
     for cyclic in (False, True):
         for st in [None] + STATES:
-            eff = probe_defer(st, cyclic)
-            flag = 'defer_rearm_cyclic' if cyclic else 'defer_rearm_acyclic'
-            exprs.append('jstate_code (on_trigger %s %s)' % (flag, abstract[st]))
-            # the state the real code leaves behind, abstracted the same way
-            after = {'create': 'JWaiting', 'rearm': 'JWaiting', 'keep': abstract[st]}.get(eff, eff)
-            obs.append({'JAbsent': 0, 'JWaiting': 1, 'JRunning': 2, 'JDone': 3}.get(after, after))
-            cases.append({'existing': st, 'cyclic': cyclic, 'effect': eff})
+            for started in ((True, False) if st in COMPLETED else (True,)):
+                eff = probe_defer(st, cyclic, started=started)
+                flag = 'defer_rearm_cyclic' if cyclic else 'defer_rearm_acyclic'
+                a = abstract[st] if started else 'JFailed'
+                exprs.append('jstate_code (on_trigger %s defer_rearm_unstarted %s)' % (flag, a))
+                # the state the real code leaves behind, abstracted the same way
+                after = {'create': 'JWaiting', 'rearm': 'JWaiting', 'keep': a}.get(eff, eff)
+                obs.append(code.get(after, after))
+                cases.append({'existing': st, 'cyclic': cyclic, 'started': started, 'effect': eff})
     res = core.coq_eval('c04defer', ['Model.JoinLife', 'Gen.Locks'], exprs)
     for c, o, r in zip(cases, obs, res):
         ctx.count('defer_decision', json.dumps(c, sort_keys=True), nontrivial=c['existing'] is not None)
         ctx.cov['disagreements_checked'] += 1
         if str(o) != r.strip():
             ctx.disagree('defer_decision', c, r, o)
-    ctx.cov['suites']['defer_decision']['effects'] = {'%s/%s' % (c['existing'], 'cyclic' if c['cyclic'] else 'acyclic'): c['effect'] for c in cases}
+    ctx.cov['suites']['defer_decision']['effects'] = {
+        '%s/%s/%s' % (c['existing'], 'cyclic' if c['cyclic'] else 'acyclic', 'ran' if c['started'] else 'never-ran'): c['effect']
+        for c in cases}
 
 
 def refresh_harness():
